@@ -3,7 +3,7 @@
 From Coq Require Import List NArith ZArith Bool Lia ZifyBool ZifyN.
 From SNT Require Import Base.Outcome Encoder.Decimal Encoder.DecimalProofs Encoder.Utf8
   Encoder.VT Encoder.VTProofs Encoder.Encode Encoder.EncodeStream Encoder.Denote Encoder.EncodeProofs Encoder.EncodeSgrProofs
-  Encoder.Color256 Encoder.Color256Proofs Encoder.EncodeC20 Gen.TabEncoder.
+  Encoder.Color256 Encoder.Color256Proofs Encoder.EncodeC20 Encoder.Term Gen.TabEncoder.
 Import ListNotations.
 Local Open Scope N_scope.
 Arguments print : simpl never.
@@ -379,4 +379,59 @@ Proof.
   intros pal gray Hp cp m Hok Hd.
   destruct (encode_meaning pal gray Hp cp (FaceModify m) Hok) as (bs & E & M & _).
   exists bs. split; [exact E|]. split; [exact M|]. apply fm_trans_reduced_fields, Hd.
+Qed.
+
+(* ---------- one encoder object: its state never reaches the output ---------- *)
+Lemma encode_some pal256 gray4 cp c : exists b, encode pal256 gray4 cp c = Ok b.
+Proof.
+  pose proof (encode_total pal256 gray4 cp c) as T.
+  destruct (encode pal256 gray4 cp c) as [b| | |]; try discriminate T. eauto.
+Qed.
+
+Theorem encode_st_stateless pal256 gray4 cp s c :
+  exists b s', encode_st pal256 gray4 cp s c = Ok (b, s') /\ encode pal256 gray4 cp c = Ok b.
+Proof.
+  destruct (encode_some pal256 gray4 cp c) as [b E].
+  destruct c; cbn [encode_st]; try (rewrite E; cbn [bind]; eauto; fail).
+  - (* FaceModify; the Face arm is closed by computation above *) cbn [chunks_clear app]. cbn [encode] in *.
+    destruct (fm_chunks pal256 gray4 (cp_depth cp) m); eauto.
+Qed.
+
+(* through ONE encoder object, from any state of its scratch buffer: the concatenation of the
+   self-contained per-command encodings *)
+Theorem encode_stream_st_concat pal256 gray4 cp : forall cs s,
+  exists bs s', encode_stream_st pal256 gray4 cp s cs = Ok (bs, s') /\
+                encode_stream pal256 gray4 cp cs = Ok bs.
+Proof.
+  induction cs as [|c r IH]; intros s.
+  - exists [], s. split; reflexivity.
+  - destruct (encode_st_stateless pal256 gray4 cp s c) as (b & s1 & E1 & E2).
+    destruct (IH s1) as (br & s2 & E3 & E4).
+    exists (b ++ br), s2. cbn [encode_stream_st encode_stream].
+    rewrite E1. cbn [bind fst snd]. rewrite E3. cbn [bind fst snd]. rewrite E2. cbn [bind]. rewrite E4.
+    split; reflexivity.
+Qed.
+
+(* equal operation lists lead to equal terminal states, from any initial state *)
+Lemma run_ops_app s a b : run_ops s (a ++ b) = run_ops (run_ops s a) b.
+Proof. unfold run_ops. apply fold_left_app. Qed.
+
+Lemma c05_stream_one_encoder_thm :
+  forall (pal256 gray4 : rgba -> N), (forall c, pal256 c < 256) ->
+  forall (cp : caps) (cs : list cmd) (s : enc_state),
+  forallb cmd_ok cs = true -> forallb (fun c => negb (is_raw c)) cs = true ->
+  exists bs s',
+    encode_stream_st pal256 gray4 cp s cs = Ok (bs, s') /\
+    encode_stream pal256 gray4 cp cs = Ok bs /\
+    forall pre, vt_complete pre = true ->
+      vt_ops (pre ++ bs) = vt_ops pre ++ flat_map (denote pal256 gray4 cp) cs /\
+      forall t : tstate,
+        run_ops t (vt_ops (pre ++ bs)) = run_ops (run_ops t (vt_ops pre)) (flat_map (denote pal256 gray4 cp) cs).
+Proof.
+  intros pal gray Hp cp cs s Hok Hr.
+  destruct (encode_stream_st_concat pal gray cp cs s) as (bs & s' & E1 & E2).
+  destruct (encode_stream_meaning pal gray Hp cp cs Hok Hr) as (bs' & E & _ & S).
+  rewrite E2 in E. injection E as <-.
+  exists bs, s'. split; [exact E1|]. split; [exact E2|]. intros pre Hpre. split; [apply S, Hpre|].
+  intros t. rewrite (S pre Hpre). apply run_ops_app.
 Qed.
